@@ -430,6 +430,28 @@ def cli_bin(repo):
     return b if rc == 0 and os.path.exists(b) else None
 
 
+def parse_witness(line):
+    """a WITNESS line is flat JSON written by the replay crate; file names in its text may carry backslashes or control
+    characters that were not escaped - never let that break the check"""
+    raw = line[len("WITNESS "):]
+    try:
+        return json.loads(raw)
+    except Exception:
+        pass
+    fixed = re.sub(r'\\(?!["\\/bfnrtu])', r'\\\\', raw)
+    fixed = "".join(ch if ch >= " " else "\\u%04x" % ord(ch) for ch in fixed)
+    try:
+        return json.loads(fixed)
+    except Exception:
+        kind = re.search(r'"kind":"([^"]*)"', raw)
+        d = dict(kind=kind.group(1) if kind else "unknown", what=raw[:600], unparsed=True)
+        for k in ("scenario", "dir", "k", "flags", "setup", "session", "rseed"):
+            m = re.search(r'"%s":(\d+)' % k, raw)
+            if m:
+                d[k] = int(m.group(1))
+        return d
+
+
 def search_witness(repo, contract, seed, budget=20, all_witnesses=False):
     b, err = replay_bin(repo)
     if b is None:
@@ -444,10 +466,7 @@ def search_witness(repo, contract, seed, budget=20, all_witnesses=False):
     ws = []
     for ln in so.splitlines():
         if ln.startswith("WITNESS "):
-            try:
-                ws.append(json.loads(ln[len("WITNESS "):]))
-            except Exception:
-                pass
+            ws.append(parse_witness(ln))
     if all_witnesses:
         return ws
     return ws[0] if ws else None
@@ -473,7 +492,7 @@ def twin_validate(pid, spec, repo, tier, seed, out):
         if ln.startswith("CASES "):
             cases = int(ln.split()[1])
         if ln.startswith("WITNESS "):
-            w = json.loads(ln[len("WITNESS "):])
+            w = parse_witness(ln)
             if spec.get("only_re") and not re.search(spec["only_re"], w.get("what", "")):
                 out.notes.append("twin %s: a witness for another property's clause was found and is not reported here: %s" % (spec["name"], w.get("what", "")[:160]))
                 continue
